@@ -17,7 +17,12 @@ try:
     t = os.path.join(tmp, "zz_verif_replay_test.go")
     open(t, "w").write(src)
     ov = os.path.join(tmp, "ov.json")
-    json.dump({"Replace": {"/repo/zz_verif_replay_test.go": t}}, open(ov, "w"))
+    rep = {"/repo/zz_verif_replay_test.go": t}
+    if d.get("generated_spec_functions"):
+        g = os.path.join(tmp, "zz_vc_generated.go")
+        open(g, "w").write(d["generated_spec_functions"])
+        rep["/repo/zz_vc_generated.go"] = g
+    json.dump({"Replace": rep}, open(ov, "w"))
     env = dict(os.environ, GOFLAGS="-mod=mod", GOPROXY="off", GOSUMDB="off", GOTOOLCHAIN="local")
     p = subprocess.run(["go", "test", "-tags", "verif", "-overlay", ov, "-vet=off", "-count=1", "-timeout", "60s",
                         "-run", "^TestVerifReplay$", "-v", "."], cwd="/repo", env=env, capture_output=True, text=True)
